@@ -1,4 +1,4 @@
-import H5V.Lemmas.HtmlTokLines
+import H5V.Lemmas.HtmlTokOut
 /-!
 C09 — line numbers reported with tokens match the source (HTML tokenizer).
 
@@ -32,6 +32,9 @@ and chunking:
   changes it (`C09_only_the_reader_counts`), i.e. a token's line is 1 + the breaks consumed when it
   is emitted.
 
+* `C09_tokens_of_a_step`: every token a step delivers is stamped with the line that step ends on
+  (whole-table lemma over all transitions, the reader's error tokens and the character-reference
+  tokenizer's included), which is `Phi − breaks ahead`: the per-token form of the statement.
 * `C09_eof_line`: `Tokenizer::end` never moves the line (what the look-ahead machinery still holds
   at the end of the input contains no line break; EOF transitions do not touch the counter), so
   the tokens flushed at EOF and the EOF token carry 1 + the number of line breaks of the whole input.
@@ -131,6 +134,20 @@ in the logically unread text never changes, and the invariant is kept -/
 theorem C09_step_conserves (o : Opts) (pol : Pol) (m : Mach) (inp : Str) (hi : LInv m) (m' : Mach) (i' : Str)
     (h : (step o pol m inp).pair? = some (m', i')) : LInv m' ∧ Phi m' i' = Phi m inp :=
   step_lines o pol m inp hi m' i' h
+
+/-- **per token**: the tokens a step delivers (the entries by which the log grows: `OutExt`) are all
+stamped with the line the step ends on, and that line plus the line breaks still ahead in the
+logically unread text is the conserved quantity `Phi` — i.e. each token carries
+`Phi − breaks ahead` = (for a run from a fresh tokenizer, `C09_invariant_initial`) one plus the number
+of line breaks consumed when it is emitted -/
+theorem C09_tokens_of_a_step (o : Opts) (pol : Pol) (m : Mach) (inp : Str) (hi : LInv m) (m' : Mach) (i' : Str)
+    (h : (step o pol m inp).pair? = some (m', i')) :
+    OutExt m'.line m.out m'.out ∧ m'.line + brk m'.ignoreLf (stash m' ++ i') = Phi m inp ∧ LInv m' := by
+  obtain ⟨h1, h2⟩ := step_lines o pol m inp hi m' i' h
+  exact ⟨step_extTo o pol m inp m' i' h, h2, h1⟩
+
+example : OutExt 3 [(Token.eof, 1)] [(Token.nullChar, 3), (Token.eof, 3), (Token.eof, 1)] :=
+  .cons _ (.cons _ .refl)
 
 /-- a tokenizer as created by `Tokenizer::new` (any start state / last start tag / BOM option)
 satisfies the invariant, and its potential is `1 + brk false input` -/
